@@ -43,9 +43,11 @@ type KStep struct {
 
 // KillCase is a C10 case.
 type KillCase struct {
-	Tasks []KTask           `json:"tasks"`
-	Init  map[string]string `json:"init"`
-	Steps []KStep           `json:"steps"`
+	// ProjDir names the directory holding the spokfile ("" = proj)
+	ProjDir string            `json:"proj_dir,omitempty"`
+	Tasks   []KTask           `json:"tasks"`
+	Init    map[string]string `json:"init"`
+	Steps   []KStep           `json:"steps"`
 }
 
 var (
@@ -77,6 +79,12 @@ func (c KillCase) source() string {
 }
 
 func genKill(t *rapid.T) KillCase {
+	c := genKillBody(t)
+	c.ProjDir = genProjDir(t)
+	return c
+}
+
+func genKillBody(t *rapid.T) KillCase {
 	n := rapid.IntRange(1, 3).Draw(t, "ntasks")
 	c := KillCase{Init: map[string]string{}}
 	for i := 0; i < n; i++ {
@@ -208,7 +216,7 @@ var lastRunKilled bool
 var killedAtStep bool
 
 func execKill(s *ev.Shard, b *sandbox.Box, c KillCase) *rp.Fail {
-	if err := b.Reset(); err != nil {
+	if err := b.ResetAs(c.ProjDir); err != nil {
 		return &rp.Fail{Sig: "harness", Msg: err.Error()}
 	}
 	src := c.source()
